@@ -20,6 +20,9 @@ def main(run, cfg, path):
         return creplay.replay_file(run, rec)
     out = replay.native_calls(run.program.repo, [dict(func=func, args=rec['failing_input'])])[0]
     chk = replay.ConcreteChecker(run.program, func)
-    bad = chk.check_ensures(rec['failing_input'], out)
+    case = None
+    if rec.get('case') is not None and c is not None:
+        case = next((k for k in (c.cases or []) if k.get('label') == rec['case']), None)
+    bad = replay.definite(chk.check_ensures(rec['failing_input'], out, case))
     print('function %s\ninput %s\nnative outcome %s\nviolated: %s' % (func, json.dumps(rec['failing_input']), json.dumps(out), bad))
     return 1 if bad else 0
